@@ -27,6 +27,23 @@ pub trait SimFs {
     fn write(&self, path: &Path, data: &[u8]) -> Option<io::Result<()>>;
     /// `std::fs::File::open`: the file's bytes and modification time as of the open.
     fn open(&self, path: &Path) -> Option<io::Result<(Vec<u8>, SystemTime)>>;
+    /// `std::fs::rename`
+    fn rename(&self, _from: &Path, _to: &Path) -> Option<io::Result<()>> {
+        None
+    }
+    /// `std::fs::remove_file`
+    fn remove_file(&self, _path: &Path) -> Option<io::Result<()>> {
+        None
+    }
+    /// `std::fs::create_dir_all`
+    fn create_dir_all(&self, _path: &Path) -> Option<io::Result<()>> {
+        None
+    }
+    /// `std::fs::File::create`: whether the path belongs to the simulated file system
+    /// (the bytes arrive through `write` when the handle is flushed, synced or dropped).
+    fn create(&self, _path: &Path) -> Option<io::Result<()>> {
+        None
+    }
 }
 
 thread_local! {
@@ -48,10 +65,40 @@ pub mod std_shim {
     pub use ::std::*;
 
     pub mod fs {
+        // Everything that is not replaced below is the real thing.
+        pub use ::std::fs::*;
+
         use super::super::current;
         use ::std::io;
-        use ::std::path::Path;
+        use ::std::path::{Path, PathBuf};
         use ::std::time::SystemTime;
+
+        pub fn rename<P: AsRef<Path>, Q: AsRef<Path>>(from: P, to: Q) -> io::Result<()> {
+            if let Some(fs) = current() {
+                if let Some(result) = fs.rename(from.as_ref(), to.as_ref()) {
+                    return result;
+                }
+            }
+            ::std::fs::rename(from, to)
+        }
+
+        pub fn remove_file<P: AsRef<Path>>(path: P) -> io::Result<()> {
+            if let Some(fs) = current() {
+                if let Some(result) = fs.remove_file(path.as_ref()) {
+                    return result;
+                }
+            }
+            ::std::fs::remove_file(path)
+        }
+
+        pub fn create_dir_all<P: AsRef<Path>>(path: P) -> io::Result<()> {
+            if let Some(fs) = current() {
+                if let Some(result) = fs.create_dir_all(path.as_ref()) {
+                    return result;
+                }
+            }
+            ::std::fs::create_dir_all(path)
+        }
 
         pub fn read<P: AsRef<Path>>(path: P) -> io::Result<Vec<u8>> {
             if let Some(fs) = current() {
@@ -60,6 +107,34 @@ pub mod std_shim {
                 }
             }
             ::std::fs::read(path)
+        }
+
+        pub fn read_to_string<P: AsRef<Path>>(path: P) -> io::Result<String> {
+            if let Some(fs) = current() {
+                if let Some(result) = fs.read(path.as_ref()) {
+                    return result.and_then(|bytes| {
+                        String::from_utf8(bytes).map_err(|_| {
+                            io::Error::new(
+                                io::ErrorKind::InvalidData,
+                                "stream did not contain valid UTF-8",
+                            )
+                        })
+                    });
+                }
+            }
+            ::std::fs::read_to_string(path)
+        }
+
+        pub fn metadata<P: AsRef<Path>>(path: P) -> io::Result<Metadata> {
+            if let Some(fs) = current() {
+                if let Some(result) = fs.open(path.as_ref()) {
+                    return result.map(|(data, modified)| Metadata::Sim {
+                        len: data.len() as u64,
+                        modified,
+                    });
+                }
+            }
+            ::std::fs::metadata(path).map(Metadata::Real)
         }
 
         pub fn write<P: AsRef<Path>, C: AsRef<[u8]>>(path: P, contents: C) -> io::Result<()> {
@@ -77,6 +152,13 @@ pub mod std_shim {
                 data: Vec<u8>,
                 pos: usize,
                 modified: SystemTime,
+            },
+            /// Created for writing: the bytes reach the simulated file system when the
+            /// handle is flushed, synced or dropped.
+            SimWrite {
+                path: PathBuf,
+                data: Vec<u8>,
+                dirty: bool,
             },
         }
 
@@ -106,6 +188,81 @@ pub mod std_shim {
                         len: data.len() as u64,
                         modified: *modified,
                     }),
+                    File::SimWrite { data, .. } => Ok(Metadata::Sim {
+                        len: data.len() as u64,
+                        modified: SystemTime::now(),
+                    }),
+                }
+            }
+
+            pub fn create<P: AsRef<Path>>(path: P) -> io::Result<File> {
+                if let Some(fs) = current() {
+                    if let Some(result) = fs.create(path.as_ref()) {
+                        return result.map(|()| File::SimWrite {
+                            path: path.as_ref().to_path_buf(),
+                            data: Vec::new(),
+                            dirty: true,
+                        });
+                    }
+                }
+                ::std::fs::File::create(path).map(File::Real)
+            }
+
+            fn commit(&mut self) -> io::Result<()> {
+                if let File::SimWrite { path, data, dirty } = self {
+                    if *dirty {
+                        *dirty = false;
+                        if let Some(fs) = current() {
+                            if let Some(result) = fs.write(path, data) {
+                                return result;
+                            }
+                        }
+                    }
+                }
+                Ok(())
+            }
+
+            pub fn sync_all(&mut self) -> io::Result<()> {
+                match self {
+                    File::Real(file) => file.sync_all(),
+                    _ => self.commit(),
+                }
+            }
+
+            pub fn sync_data(&mut self) -> io::Result<()> {
+                match self {
+                    File::Real(file) => file.sync_data(),
+                    _ => self.commit(),
+                }
+            }
+        }
+
+        impl Drop for File {
+            fn drop(&mut self) {
+                let _ = self.commit();
+            }
+        }
+
+        impl io::Write for File {
+            fn write(&mut self, buf: &[u8]) -> io::Result<usize> {
+                match self {
+                    File::Real(file) => io::Write::write(file, buf),
+                    File::SimWrite { data, dirty, .. } => {
+                        data.extend_from_slice(buf);
+                        *dirty = true;
+                        Ok(buf.len())
+                    }
+                    File::Sim { .. } => Err(io::Error::new(
+                        io::ErrorKind::PermissionDenied,
+                        "file was opened for reading",
+                    )),
+                }
+            }
+
+            fn flush(&mut self) -> io::Result<()> {
+                match self {
+                    File::Real(file) => io::Write::flush(file),
+                    _ => self.commit(),
                 }
             }
         }
@@ -137,6 +294,10 @@ pub mod std_shim {
                         *pos += n;
                         Ok(n)
                     }
+                    File::SimWrite { .. } => Err(io::Error::new(
+                        io::ErrorKind::PermissionDenied,
+                        "file was created for writing",
+                    )),
                 }
             }
         }
